@@ -2,10 +2,13 @@
    What is proved about the reference semantics (Model/SqlEval.v): evaluating a table reference
    without its integration qualifier inside that integration reads the same rows, for every
    database, provided the remaining name is not captured by a CTE in scope; both guards are shown
-   necessary.  The whole-query statement is decided per generated query x database by evaluation
-   (harness/c11.py): PARTIAL, see DESIGN.md. *)
+   necessary.  Further down: the whole-query statement for every query of the reference language
+   (C11_rewriting_keeps_meaning) and the form that harness/c11u.py instantiates for each planned
+   statement (C11_pushdown_keeps_meaning), so that a statement planned as one fetch step is settled
+   for every database.  Statements outside the conditions (default namespace, CTE capture) and
+   constructs outside the reference language are decided by evaluation on generated databases. *)
 From Coq Require Import ZArith PArith List Bool.
-From MSV Require Import Lib.Rel Model.SqlEval Proofs.SqlEvalLemmas.
+From MSV Require Import Lib.Rel Model.SqlEval Proofs.SqlEvalLemmas Model.Strip Proofs.StripProofs.
 Import ListNotations.
 
 Theorem C11_strip_table_sound_partial :
@@ -26,3 +29,51 @@ Theorem C11_strip_alias_like_integration_refuted :
     eval_e fuel cx sch rw None (ECol None c) <> eval_e fuel cx sch rw None (ECol (Some d) c).
 Proof. exact strip_alias_like_integration_refuted. Qed.
 Print Assumptions C11_strip_alias_like_integration_refuted.
+Local Open Scope positive_scope.
+
+(* ---- the whole-query statement (Model/Strip.v, Proofs/StripProofs.v) ----
+   For EVERY query of the reference language (joins of every kind, sub-queries in any position,
+   set operations, CTEs, grouping, ordering, LIMIT), every context and every fuel: removing the
+   qualifier d from the table names (and adding name-keeping aliases) and evaluating inside
+   integration d gives the frame the original query gives outside, provided every table is
+   qualified with d or is a CTE in scope and no stripped name is captured by a CTE in scope. *)
+Theorem C11_rewriting_keeps_meaning :
+  forall ds ka fuel cx q,
+    pref_ok ds cx -> ok_q ds (map fst (c_ctes cx)) q = true ->
+    eval_q fuel (inside_o ds cx) (tr_q ds ka q) = eval_q fuel cx q.
+Proof. exact tr_q_sound. Qed.
+Print Assumptions C11_rewriting_keeps_meaning.
+
+(* The form instantiated per planned statement by harness/c11u.py: a fetched query q2 that is the
+   rewriting of q up to name-keeping aliases answers q on every database. *)
+Theorem C11_pushdown_keeps_meaning :
+  forall d q q2,
+    ok_q (Some d) [] q = true -> alias_norm q2 = pushed d q ->
+    forall fuel db, eval_q fuel (mkCtx db [d] [] [] []) q2 = eval_q fuel (mkCtx db [] [] [] []) q.
+Proof. exact pushdown_sound. Qed.
+Print Assumptions C11_pushdown_keeps_meaning.
+
+(* non-vacuity: `with c as (select * from d.t where a = 1) select c.a, u.b from c join d.u on c.a = u.a limit 5`
+   (d = 5, t = 7, u = 8, c = 9, a = 11, b = 12) satisfies the condition, and returns a row on a small database *)
+Example pushdown_example :
+  let q := QWith [(9, QSel false false [TStar None] (Some (FTab [5; 7] None))
+                          (Some (EBin BEq (ECol None 11) (EConst (VInt 1)))) [] None [] None None)]
+                 (QSel false false [TExpr (ECol (Some 9) 11) None; TExpr (ECol (Some 8) 12) None]
+                       (Some (FJoin JI (FTab [9] None) (FTab [5; 8] None) (Some (EBin BEq (ECol (Some 9) 11) (ECol (Some 8) 11)))))
+                       None [] None [] (Some 5%nat) None) in
+  let db := [([5; 7], ([11; 12], [[VInt 1; VInt 2]])); ([5; 8], ([11; 12], [[VInt 1; VInt 3]]))] in
+  ok_q (Some 5) [] q = true /\
+  snd (eval_q 10 (mkCtx db [5] [] [] []) (pushed 5 q)) = [[VInt 1; VInt 3]] /\
+  snd (eval_q 10 (mkCtx db [] [] [] []) q) = [[VInt 1; VInt 3]].
+Proof. vm_compute. auto. Qed.
+
+(* the condition "every table belongs to d" is needed: a table of another integration *)
+Theorem C11_other_integration_refuted :
+  exists d q fuel db,
+    ok_q (Some d) [] q = false /\
+    eval_q fuel (mkCtx db [d] [] [] []) (pushed d q) <> eval_q fuel (mkCtx db [] [] [] []) q.
+Proof.
+  exists 5, (QSel false false [TStar None] (Some (FTab [6; 7] None)) None [] None [] None None), 5%nat,
+         [([6; 7], ([11], [[VInt 1]]))].
+  split; [reflexivity|]. vm_compute. discriminate.
+Qed.
